@@ -304,3 +304,32 @@ func Verif_C10_send_side() {
 	}
 	verifapi.Assert("no-lock-left-held", verifapi.HeldLocks() == 0)
 }
+
+// Verif_C10_every_expiry_is_reported: one socket sends two datagrams that run out of budget at the same
+// relay on the way to the same destination; both "message expired" notices come back (identical but for
+// nothing). The socket's subscription is told about BOTH: each expired datagram is reported.
+func Verif_C10_every_expiry_is_reported() {
+	n := verifNetceptor("A")
+	s := n.s
+	pc, err := s.ListenPacket("s1")
+	verifapi.Assert("listen-ok", err == nil)
+	sub := pc.SubscribeUnreachable(make(chan struct{}))
+	verifapi.Quiesce()
+	got := 0
+	for i := 0; i < 2; i++ {
+		um := &UnreachableMessage{FromNode: "A", FromService: "s1", ToNode: "R", ToService: "svc", Problem: ProblemExpiredInTransit}
+		md := &MessageData{FromNode: "B", ToNode: "A", FromService: "unreach", ToService: "unreach", HopsToLive: 5, Data: verifapi.JSON(um)}
+		_ = s.handleMessageData(md)
+		verifapi.Quiesce()
+		select {
+		case m := <-sub:
+			got++
+			verifapi.Assert("notice-names-the-expired-packet", verifapi.All(m.Problem == ProblemExpiredInTransit, m.ToNode == "R", m.ReceivedFromNode == "B"))
+		default:
+		}
+	}
+	verifapi.Cover("two-expiries")
+	verifapi.Assert("every-expired-datagram-is-reported-to-its-sender", got == 2)
+	_ = pc.Close()
+	verifapi.Quiesce()
+}
